@@ -2,11 +2,12 @@
 # usage: trymutant.sh <patch.diff> <pid>...   — applies the patch to /repo, runs the quick checks, reverts.
 P="$1"; shift
 cd /repo || exit 2
+if [ -n "$(git status --porcelain)" ]; then echo "REFUSING: /repo has uncommitted changes"; exit 4; fi
 if ! git apply --check "$P" 2>/dev/null; then echo "PATCH DOES NOT APPLY: $P"; exit 3; fi
 git apply "$P"
 for id in "$@"; do
   echo "== $id under $(basename $(dirname $P))/$(basename $P)"
   (cd /verif && timeout 1200 ./check $id --tier quick 2>&1 | grep -E "VIOLATION|KNOWN-FINDING|Traceback|Error" | head -5; echo "rc=$?")
 done
-git -C /repo checkout -- . 
+git -C /repo checkout -- .
 git -C /repo status --short | head -3
